@@ -110,6 +110,10 @@ func VerifC06AddMount() {
 		verifAssert(ok && pe.Path == cases[c], "AddMount failure must be a *PathError naming the mount point")
 		n := len(fs.MountPoints())
 		verifAssert(n == 1, "a failed AddMount changed the mount table")
+		// and the mount table stays usable: a later AddMount returns (a refusal must not keep the table locked)
+		later, _ := mem.NewFS()
+		verifAssert(fs.AddMount("d/e", later) == nil, "AddMount after a refused AddMount failed")
+		verifReach("addmount-after-refusal")
 	}
 }
 
@@ -158,9 +162,11 @@ func VerifC06CrossRename() {
 	verifAssert(err == nil, "mount.NewFS")
 	verifAssert(fs.AddMount("m", inner) == nil, "AddMount")
 	dir := verifChoice("direction", 2) // 0: root -> mount, 1: mount -> root
-	src, dst := "f", "m/g"
+	// the destination's base name may equal the source's (the remainders inside the two mounts are then equal)
+	g := []string{"g", "f"}[verifChoice("dest-name", 2)]
+	src, dst := "f", "m/"+g
 	if dir == 1 {
-		src, dst = "m/f", "g"
+		src, dst = "m/f", g
 		verifTag("direction", "mount-to-root")
 	} else {
 		verifTag("direction", "root-to-mount")
